@@ -202,7 +202,7 @@ def judge_resp(sim, ev, rec):
     rec["facts"] = F
     slack = spec.get("slack") or 0
     now = rec["now"]
-    browser = rec["via_binding"] in ("post", "redirect")
+    browser = rec["via_binding"] in ("post", "redirect", "artifact")
 
     try:
         xml = decode_value(rec["value"], rec["via_binding"])
@@ -353,10 +353,13 @@ def judge_resp(sim, ev, rec):
                         addr_ok = False
         if allow_unsol and irt is not None and irt not in outstanding:
             pass
+        def _binding_of(k):
+            return "redirect" if "redirect" in k else "artifact" if "artifact" in k else "post"
         own = [u for k, u in sp.endpoints.items()
                if k.startswith("acs_") and (k != "acs_post2" or spec.get("acs2"))
                and (k != "acs_redirect" or not spec.get("no_redirect_acs"))
-               and (("redirect" in k) == (rec["via_binding"] == "redirect"))]
+               and (k != "acs_artifact" or spec.get("acs_artifact"))
+               and _binding_of(k) == rec["via_binding"]]
         dest = m["destination"]
         if dest:
             import re
